@@ -20,7 +20,8 @@ func vhNIDs() int {
 	}
 	return 2
 }
-var vhStrs = [2]string{"x", "y"}
+// the third string is byte for byte what the first point prints as
+var vhStrs = [3]string{"x", "y", `{"type":"Point","coordinates":[10,20]}`}
 var vhDeadlines = [3]int64{0, 5000000000, 9000000000}
 var vhPts = [3]geometry.Point{{X: 10, Y: 20}, {X: -30, Y: 5}, {X: 10, Y: -45}}
 
@@ -30,15 +31,21 @@ type vhDesc struct {
 }
 
 // vhObject draws an object descriptor: kind (string / point / rectangle / empty spatial), deadline, one field or none.
-func vhObject(id string) *object.Object {
+func vhObject(id string, cur *object.Object) *object.Object {
 	var g geojson.Object
-	switch vchoose(4) {
+	switch vchoose(5) {
 	case 0:
-		if vthorough() {
+		if vthorough() && vnondetBool() {
 			g = String(vnondetStringN(1))
 		} else {
-			g = String(vhStrs[vchoose(2)])
+			g = String(vhStrs[vchoose(3)])
 		}
+	case 4:
+		// what FSET / EXPIRE / PERSIST do: a new object around the geometry (or string) of the current one
+		if cur == nil {
+			vassume(false)
+		}
+		g = cur.Geo()
 	case 1:
 		g = geojson.NewSimplePoint(vhPts[vchoose(vhNIDs())])
 	case 2:
@@ -158,7 +165,7 @@ func vhCheck(c *Collection, st *[3]vhDesc) {
 	vassert("C19.spatial_exact", ok && k == nsp)
 }
 
-//verif:cfg quick.b_ops=3 thorough.b_ops=4 quick.b_ids=2 thorough.b_ids=3 b_kinds=string,point,rect,empty-spatial b_deadline=none|5s|9s quick.b_string_values=2_concrete thorough.b_string_values=1_symbolic_byte
+//verif:cfg quick.b_ops=3 thorough.b_ops=4 quick.b_ids=2 thorough.b_ids=3 b_kinds=string,point,rect,empty-spatial,same_geometry_as_the_current_object(FSET/EXPIRE/PERSIST) b_deadline=none|5s|9s b_string_values=3_concrete(one_equal_to_the_text_of_a_point) thorough.b_string_values=+1_symbolic_byte
 func VH_C19_history() {
 	ops := 3
 	if vthorough() {
@@ -169,7 +176,7 @@ func VH_C19_history() {
 	for k := 0; k < ops; k++ {
 		i := vchoose(vhNIDs())
 		if vnondetBool() {
-			o := vhObject(vhIDs[i])
+			o := vhObject(vhIDs[i], st[i].obj)
 			prev := c.Set(o)
 			if st[i].present {
 				vassert("C19.set_returns_previous", prev == st[i].obj)
